@@ -250,8 +250,7 @@ def run_unit(unit, pid, tier, jobs, timeout_s, only=None):
         }
         unwind_fail = any("unwinding assertion" in d[0] for d in fdesc)
         user_fail = [d for d in fdesc if "unwinding assertion" not in d[0]]
-        timeout = any("timed out" in l.lower() or "timeout" in l.lower()
-                      for l in terse.get(n, {}).get("raw", []))
+        timeout = any("cbmc timed out" in l.lower() for l in terse.get(n, {}).get("raw", []))
         undetermined = pd.get("undetermined", 0) or 0
         if r.get("status") == "Success" and not fdesc and undetermined:
             res["status"] = "inconclusive"
@@ -353,6 +352,18 @@ def native_replay(unit, d, fq_name, replay_path, release=False):
     env["VERIF_REPLAY"] = replay_path
     env["RUST_BACKTRACE"] = "0"
     tdir = os.path.join(WORK, "native-" + unit["name"])
+    enc_bug_marker = "VERIF-REPLAY:"
+    if unit["kind"] == "shadow":
+        # shadow crates: the generated bin calls the unmangled harness function
+        cmd = ["cargo", "run", "--offline", "--target-dir", tdir, "--bin", "verif_replay"]
+        if release:
+            cmd.append("--release")
+        cmd += ["--", short]
+        rc, out, secs = sh(cmd, cwd=d, env=env, timeout=1800)
+        built = "Running `" in out or "VERIF-REPLAY-OK" in out or "panicked at" in out
+        ok_run = "VERIF-REPLAY-OK" in out
+        panicked = "panicked at" in out
+        return (built and panicked and not ok_run and enc_bug_marker not in out), out, short
     cmd = ["cargo", "test", "--offline", "--target-dir", tdir, "--lib"]
     if release:
         cmd.append("--release")
@@ -361,7 +372,7 @@ def native_replay(unit, d, fq_name, replay_path, release=False):
     rc, out, secs = sh(cmd, cwd=d, env=env, timeout=1800)
     ran = re.search(r"running 1 test", out) is not None
     failed = re.search(r"test result: FAILED", out) is not None
-    enc_bug = "VERIF-REPLAY:" in out
+    enc_bug = enc_bug_marker in out
     return (ran and failed and not enc_bug), out, short
 
 
@@ -373,17 +384,27 @@ def load_known():
 
 
 def match_known(known, pid, fq_name, fdesc):
+    """A failed harness is a known finding only if EVERY failed check in it is covered by a listed
+    finding (keyed by property, optional harness name, and a marker in the assertion message that
+    the harness attaches to exactly the listed input class). Returns the list of entries, or None."""
     short = fq_name.split("::")[-1]
-    for e in known:
-        if e["property"] != pid:
-            continue
-        if e.get("harness") and e["harness"] != short:
-            continue
-        msg = e.get("message_contains")
-        if msg and not any(msg in d[0] for d in fdesc):
-            continue
-        return e
-    return None
+    hits = []
+    for d in fdesc:
+        if "unwinding assertion" in d[0]:
+            return None
+        found = None
+        for e in known:
+            if e["property"] != pid:
+                continue
+            if e.get("harness") and e["harness"] != short:
+                continue
+            if e["message_contains"] in d[0]:
+                found = e
+                break
+        if found is None:
+            return None
+        hits.append(found)
+    return hits or None
 
 
 # ---------------------------------------------------------------------------------------------
@@ -533,11 +554,14 @@ def main():
                 continue
             m = re.findall(r"panicked at [^\n]*\n([^\n]*)", out_dev)
             r["native_panic"] = m[-1].strip() if m else ""
-            e = match_known(known, pid, n, r["failed"])
-            if e is not None:
-                known_hits.append((e, n))
+            es = match_known(known, pid, n, r["failed"])
+            if es is not None:
                 r["status"] = "known_finding"
-                log("KNOWN-FINDING: property=%s %s (harness %s, replay=%s)" % (pid, e["what"], short, path))
+                for e in es:
+                    if not any(e is k for k, _ in known_hits):
+                        log("KNOWN-FINDING: property=%s %s" % (pid, e["what"]))
+                    known_hits.append((e, n))
+                log("    (known finding %s reproduced by harness %s, replay=%s)" % (es[0]["id"], short, path))
             else:
                 violations += 1
                 viol_lines.append("VIOLATION property=%s replay=%s" % (pid, path))
@@ -546,7 +570,7 @@ def main():
 
     wall = time.time() - t0
     write_evidence(pid, tier, seed, spec, all_results, metas, wall, violations,
-                   extra={"known_findings_hit": [e["id"] for e, _ in known_hits],
+                   extra={"known_findings_hit": sorted(set(e["id"] for e, _ in known_hits)),
                           "inconclusive": inconclusive})
     for l in viol_lines:
         log(l)
@@ -569,7 +593,7 @@ def do_replay(pid, spec, path):
     unit = [u for u in spec["units"] if u["name"] == uname][0]
     d = crate_dir(unit)
     ok, out, short = native_replay(unit, d, fq, os.path.abspath(path))
-    log(out[-3000:])
+    log(out[-1500:])
     if ok:
         log("VIOLATION property=%s replay=%s" % (pid, path))
         return 1
